@@ -226,6 +226,12 @@ EvalFn(e, c) ==
                                  D == DocOf(F, c.n) IN
                              NS({Node(ND(c.n), i) : i \in UNION {ElemsWithId(D, t) : t \in toks}})
     [] name = "current"   -> NS({c.cur})
+    [] name = "generate-id" ->      \* XSLT 12.4: some string that identifies the node - only equality of two results is meaningful, so the
+                                    \* generators use it under "=" only; this model's identifier is the node's coordinates
+                             IF nodeArg.t # "ns" THEN ErrV
+                             ELSE IF nodeArg.v = {} THEN SV(<<>>)
+                             ELSE LET x == FirstInDocOrder(nodeArg.v) IN
+                                  SV(<<78>> \o NumToStr(FromInt(x[1])) \o <<95>> \o NumToStr(FromInt(x[2])) \o <<95>> \o NumToStr(FromInt(x[3])))
     [] name = "document"  ->        \* XSLT 12.1, one argument: the root nodes of the documents the URIs name; c.docs = <<[uri, idx]>> lists
                                     \* the documents this evaluation was given (idx = position in the forest); any other URI is outside the model
                              LET uris == IF a[1].t = "ns" THEN {StringValue(F, x) : x \in a[1].v} ELSE {strArg(1)}
